@@ -33,7 +33,7 @@ Example C20_witness_user_create :
   step all_acps (IUser true) wdb (OCreate [mkcent [281474976710657] 0 false; mkcent [] 999999999999999999 false])
   = (ROk, wdb ++ [mkent 281474976710657 false Live; mkent 999999999999999999 false Live]).
 Proof. vm_compute. reflexivity. Qed.
-(* ... and is refused for uuid 281474976710655 = UUID_ANONYMOUS, while the system identity may *)
+(* ... and is refused for the reserved uuid 5, while the system identity may create it *)
 Example C20_witness_user_create_reserved :
   fst (step all_acps (IUser true) wdb (OCreate [mkcent [5] 0 false])) = EDenied /\
   step all_acps ISystem wdb (OCreate [mkcent [5] 0 false]) = (ROk, wdb ++ [mkent 5 false Live]).
